@@ -7,6 +7,7 @@ import (
 	"go/token"
 	"go/types"
 	"strings"
+	"time"
 
 	"golang.org/x/tools/go/ssa"
 	"golang.org/x/tools/go/types/typeutil"
@@ -115,6 +116,7 @@ type Machine struct {
 	allowInit  func(path string) bool
 	funcsUsed  map[*ssa.Function]int // function -> instructions executed (evidence)
 	lits       map[*Term]bool        // branch conditions already on the path condition
+	deadline   time.Time
 	rtErrType  types.Type
 	branches   int
 	traceInstr bool
@@ -186,12 +188,20 @@ func (m *Machine) flush() {
 
 func (m *Machine) check(extra ...*Term) SatResult {
 	m.flush()
-	return m.sol.CheckWith(extra...)
+	r := m.sol.CheckWith(extra...)
+	if m.sol.Dead {
+		panic(pathAbort{"solver-timeout", "a query exceeded the hard per-query time limit; solver restarted"})
+	}
+	return r
 }
 
 func (m *Machine) model(vars []*Term, extra ...*Term) (SatResult, map[string]uint64) {
 	m.flush()
-	return m.sol.ModelWith(vars, extra...)
+	r, mod := m.sol.ModelWith(vars, extra...)
+	if m.sol.Dead {
+		panic(pathAbort{"solver-timeout", "a query exceeded the hard per-query time limit; solver restarted"})
+	}
+	return r, mod
 }
 
 // forkFree enumerates the n values of a fresh variable v (constrained only by v < n): every
@@ -234,6 +244,9 @@ func (m *Machine) branch(c *Term) bool {
 	idx := m.dpos
 	m.dpos++
 	m.branches++
+	if idx > 600 {
+		panic(pathAbort{"budget", "more than 600 symbolic branch decisions on one path"})
+	}
 	if idx < len(m.prefix) {
 		d := m.prefix[idx]
 		m.decided = append(m.decided, d)
@@ -670,6 +683,9 @@ func (m *Machine) run() {
 		m.steps++
 		if m.steps > m.budget {
 			panic(pathAbort{"budget", fmt.Sprintf("more than %d instructions on one path", m.budget)})
+		}
+		if m.steps&1023 == 0 && !m.deadline.IsZero() && time.Now().After(m.deadline) {
+			panic(pathAbort{"wall-budget", "driver wall-clock budget exceeded inside a path"})
 		}
 		m.stepGuard(t, f)
 	}
